@@ -20,12 +20,17 @@ def scaled(bits_hex, k):
 class Script:
     """a structured graphic that can be printed at a scale exponent k, with indirect or direct colours"""
 
-    def __init__(self, rng, gradients=True, arcs=True):
+    def __init__(self, rng, gradients=True, arcs=True, lod_h=None, tiny=False):
         self.vb = R.viewbox(rng)
         self.pal = G.rpalette(rng)
-        self.items = []   # ("creg", adj, incr, color) | ("grad", cbase, nbase, stops, shape, spread, mat, sel) | ("path", adj, tokens)
+        self.items = []   # ("creg", adj, incr, color) | ("grad", cbase, nbase, stops, shape, spread, mat, sel) | ("path", adj, tokens) | ("lod", l0, l1)
         for _ in range(rng.range(1, 4)):
             r = rng.below(6)
+            if lod_h is not None and rng.below(2):
+                # level-of-detail bounds around the height of the target rectangle (not around its bottom edge)
+                l0 = rng.choice([0, 0, lod_h, lod_h + 1, lod_h - 1])
+                l1 = rng.choice([lod_h + 1, lod_h + 2, lod_h + 6, lod_h + 12, 1e9, lod_h])
+                self.items.append(("lod", C.fh(float(max(l0, 0))), C.fh(float(l1))))
             if r < 2:
                 self.items.append(("creg", 0, False, G.rcolor(rng)))
             elif r == 2 and gradients:
@@ -37,7 +42,12 @@ class Script:
             for _ in range(rng.range(2, 6)):
                 v = rng.choice(R.NONARC + (["A", "a"] if arcs else []))
                 if v in ("A", "a"):
-                    p.append((v, [C.fh(rng.range(1, 200) / 8.0), C.fh(rng.range(1, 200) / 8.0)], C.fh(rng.below(24) / 24.0), str(rng.below(4)), [R.mf(rng), R.mf(rng)]))
+                    if tiny and rng.below(2):
+                        # radii far too small for the chord: scaled up uniformly as SVG prescribes
+                        rad = [C.fh(rng.choice([0.002, 0.003, 0.005, 1 / 256.0, 1 / 512.0])), C.fh(rng.choice([0.002, 0.003, 0.004, 1 / 256.0, 1 / 300.0]))]
+                    else:
+                        rad = [C.fh(rng.range(1, 200) / 8.0), C.fh(rng.range(1, 200) / 8.0)]
+                    p.append((v, rad, C.fh(rng.below(24) / 24.0), str(rng.below(4)), [R.mf(rng), R.mf(rng)]))
                 else:
                     p.append((v, [R.mf(rng) for _ in range(G.VERBS[v])]))
             self.items.append(("path", 0, p))
@@ -53,6 +63,8 @@ class Script:
                     col = "#" + vm.resolve(col)
                 vm.set(0, col)
                 t += ["CS", "0", "CR", "0", "0", col]
+            elif it[0] == "lod":
+                t += ["LOD", it[1], it[2]]
             elif it[0] == "grad":
                 _, cb, nb, stops, shape, spread, mat = it
                 m = list(mat)
@@ -147,6 +159,14 @@ def generate(rng, tier):
         # make sure translucent flat colours occur so that Src and Over differ
         t3 = t3[:6] + ["CS", "0", "CR", "0", "0", "#" + rng.choice(["80000080", "40404040", "00008080", G.rpremul(rng)])] + t3[6:]
         g["drawop"].append("PIXOP %s %d %d %s" % (kind, rng.choice(sizes[2:8]), rng.choice(sizes[2:8]), " ".join(t3)))
+        # level of detail is decided by the rectangle's height, wherever the rectangle sits
+        h4 = rng.choice(sizes[:9])
+        s4 = Script(rng, lod_h=h4)
+        g.setdefault("offset-lod", []).append("PIXOFF %s %d %d %d %d %s" % (kind, rng.choice(sizes[:9]), h4, rng.choice([0, 1, 3, 17]), rng.choice([1, 2, 5, 11, 40]), " ".join(s4.tokens())))
+        # arcs with tiny radii, scaled down further
+        s5 = Script(rng, tiny=True)
+        k5 = rng.choice([-6, -5, -4, -3, -2, 2, 4])
+        g.setdefault("scale-tiny-radii", []).append("PIXEQ %s %d %d %s | %s" % (kind, w2, rng.choice(sizes[:9]), " ".join(s5.tokens()), " ".join(s5.tokens(k=k5))))
     return g
 
 
